@@ -43,6 +43,13 @@ func c16kNT(tok string) *dialer.NetworkType {
 	case 'T':
 		nt.L4Proto = consts.L4ProtoStr_TCP
 		nt.IsDns = true
+	case 'a':
+		nt.L4Proto = consts.L4ProtoStr_TCP
+		nt.IsDns = true
+		nt.UdpHealthDomain = dialer.UdpHealthDomainDns
+	case 'b':
+		nt.L4Proto = consts.L4ProtoStr_TCP
+		nt.UdpHealthDomain = dialer.UdpHealthDomainData
 	case 'd':
 		nt.L4Proto = consts.L4ProtoStr_UDP
 		nt.IsDns = true
@@ -70,6 +77,10 @@ func c16kCore(t *testing.T) (*controlPlaneCore, *ebpf.Map) {
 	if err != nil {
 		return nil, nil
 	}
+	return c16kCoreOn(m)
+}
+
+func c16kCoreOn(m *ebpf.Map) (*controlPlaneCore, *ebpf.Map) {
 	log := logrus.New()
 	log.SetOutput(io.Discard)
 	core := &controlPlaneCore{log: log, outboundId2Name: map[uint8]string{}}
@@ -111,7 +122,7 @@ func c16kIdx(tok string) int {
 		b = 1
 	}
 	switch tok[0] {
-	case 't', 'T':
+	case 't', 'T', 'a', 'b':
 		return 4 + b
 	case 'd', 'z':
 		return 2 + b
@@ -120,18 +131,20 @@ func c16kIdx(tok string) int {
 }
 
 type c16kNode struct {
-	id int
-	d  *dialer.Dialer
+	id   int
+	name string // the name InheritDialerHealthFrom matches on (inherited from the old generation's node)
+	d    *dialer.Dialer
 }
 type c16kGroup struct {
 	id, ob  int
+	name    string
 	pol     string
 	g       *outbound.DialerGroup
 	members []*c16kNode
 }
 
 var c16kStd = []string{"d4", "d6", "t4", "t6", "u4", "u6"}
-var c16kAll = []string{"t4", "t6", "T4", "T6", "d4", "d6", "u4", "u6", "x4", "x6", "y4", "y6", "z4", "z6"}
+var c16kAll = []string{"t4", "t6", "T4", "T6", "d4", "d6", "u4", "u6", "x4", "x6", "y4", "y6", "z4", "z6", "a4", "a6", "b4", "b6"}
 
 func TestVerifC16Kernel(t *testing.T) {
 	st := VOpenStream("c16k")
@@ -147,28 +160,42 @@ func TestVerifC16Kernel(t *testing.T) {
 	defer m.Close()
 	r := NewVRand(VSeed())
 
-	// (a) the closure itself: exactly one slot of the whole map changes, to the expected value
+	// (a) the closure itself: exactly one slot of the whole map changes, to the expected value; nothing
+	// changes when the core is closed or retired, or for a non-init callback in dry-run mode
 	c16kFill(m)
 	for _, ob := range []int{0, 1, 2, 7, 41, 255} {
 		for _, tok := range c16kAll {
 			for _, alive := range []bool{false, true} {
 				for _, init := range []bool{false, true} {
-					core.outboundAliveChangeCallback(uint8(ob), false)(alive, c16kNT(tok), init)
-					ch := c16kChanged(m)
-					st.Emit(fmt.Sprintf("key %d %s %s", ob, tok, c16kBool(alive)), ch)
-					var k, v uint32
-					if n, _ := fmt.Sscanf(ch, "key=%d val=%d", &k, &v); n == 2 {
-						_ = m.Update(k, c16kSentinel, ebpf.UpdateAny)
-					} else {
-						c16kFill(m)
+					for mode := 0; mode < 4; mode++ { // 0 plain, 1 dryrun, 2 retired, 3 closed
+						cc := core
+						if mode >= 2 {
+							cc, _ = c16kCoreOn(m)
+							if mode == 2 {
+								cc.retired.Store(true)
+							} else {
+								cc.close()
+							}
+						}
+						cc.outboundAliveChangeCallback(uint8(ob), mode == 1)(alive, c16kNT(tok), init)
+						ch := c16kChanged(m)
+						st.Emit(fmt.Sprintf("kcb %d %s %s %s %s %s %s", ob, tok, c16kBool(alive), c16kBool(init),
+							c16kBool(mode == 1), c16kBool(mode == 2), c16kBool(mode == 3)), ch)
+						var k, v uint32
+						if n, _ := fmt.Sscanf(ch, "key=%d val=%d", &k, &v); n == 2 {
+							_ = m.Update(k, c16kSentinel, ebpf.UpdateAny)
+						} else if ch != "unchanged" {
+							c16kFill(m)
+						}
+						stats.Inc(fmt.Sprintf("closure.mode%d", mode))
 					}
-					stats.Inc("closure")
 				}
 			}
 		}
 	}
 
-	// (b) end to end
+	// (b) end to end: real groups wired to the real closure; reloads through the REAL
+	// ControlPlane.InheritDialerHealthFrom
 	log := logrus.New()
 	log.SetOutput(io.Discard)
 	log.SetLevel(logrus.WarnLevel)
@@ -178,54 +205,83 @@ func TestVerifC16Kernel(t *testing.T) {
 		"min_moving": consts.DialerSelectionPolicy_MinMovingAverageLatencies,
 		"min_avg":    consts.DialerSelectionPolicy_MinAverage10Latencies,
 		"random":     consts.DialerSelectionPolicy_Random,
+		"fixed":      consts.DialerSelectionPolicy_Fixed,
 	}
-	polNames := []string{"min_last", "min_moving", "min_avg", "random"}
-	nScn := 40
+	polNames := []string{"min_last", "min_moving", "min_avg", "min_last", "random", "fixed"}
+	nScn := 60
 	if VThorough() {
-		nScn = 600
+		nScn = 800
 	}
 	for sc := 0; sc < nScn; sc++ {
 		dialer.ResetGlobalProxyStateForReload()
 		c16kFill(m)
 		st.Emit("scenario", "ok")
-		var nodes []*c16kNode
-		var groups []*c16kGroup
-		nextG := 0
-		kbits := func() string {
+		var nodes []*c16kNode   // every node ever created in this scenario (model ids = index)
+		var groups []*c16kGroup // every group ever created
+		var curNodes []*c16kNode
+		var curGroups []*c16kGroup
+		// impl answer: alive flags of all nodes, Len() of every set, kernel bits
+		state := func() string {
 			var sb strings.Builder
-			sb.WriteString("K[")
-			for _, g := range groups {
+			sb.WriteString("A[")
+			for i, n := range nodes {
+				if i > 0 {
+					sb.WriteByte(';')
+				}
+				fmt.Fprintf(&sb, "%d:", n.id)
 				for _, tok := range c16kStd {
+					sb.WriteString(c16kBool(n.d.MustGetAlive(c16kNT(tok))))
+				}
+			}
+			sb.WriteString("] L[")
+			var kb strings.Builder
+			first := true
+			for _, g := range groups {
+				if g.pol == "fixed" {
+					continue
+				}
+				for _, tok := range c16kStd {
+					if !first {
+						sb.WriteByte(',')
+					}
+					first = false
+					fmt.Fprint(&sb, g.g.MustGetAliveDialerSet(c16kNT(tok)).Len())
 					var v uint32
 					_ = m.Lookup(outboundConnectivityMapKey(uint8(g.ob), c16kNT(tok)), &v)
 					switch v {
 					case 0:
-						sb.WriteByte('0')
+						kb.WriteByte('0')
 					case 1:
-						sb.WriteByte('1')
+						kb.WriteByte('1')
 					default:
-						sb.WriteByte('?')
+						kb.WriteByte('?')
 					}
 				}
 			}
-			sb.WriteString("]")
+			fmt.Fprintf(&sb, "] K[%s]", kb.String())
 			return sb.String()
 		}
-		addNode := func(addr int) *c16kNode {
-			n := &c16kNode{id: len(nodes)}
+		addNode := func(addr int, name string) *c16kNode {
+			n := &c16kNode{id: len(nodes), name: name}
+			if n.name == "" {
+				n.name = fmt.Sprintf("n%d", n.id)
+			}
 			a := ""
 			if addr != 0 {
 				a = fmt.Sprintf("addr%d", addr)
 			}
 			n.d = dialer.NewDialer(c16kNoop{}, opt, dialer.InstanceOption{DisableCheck: true},
-				&dialer.Property{Property: D.Property{Name: fmt.Sprintf("n%d", n.id), Address: a}})
+				&dialer.Property{Property: D.Property{Name: n.name, Address: a}})
 			nodes = append(nodes, n)
-			st.Emit(fmt.Sprintf("node %d %d |", n.id, addr), kbits())
+			st.Emit(fmt.Sprintf("node %d %d |", n.id, addr), state())
 			return n
 		}
-		addGroup := func(members []*c16kNode) *c16kGroup {
-			g := &c16kGroup{id: nextG, ob: 2 + nextG*3, pol: polNames[r.Intn(len(polNames))], members: members}
-			nextG++
+		addGroup := func(members []*c16kNode, pol, name string) *c16kGroup {
+			g := &c16kGroup{id: len(groups), pol: pol, name: name, members: members}
+			g.ob = 2 + g.id
+			if g.name == "" {
+				g.name = fmt.Sprintf("g%d", g.id)
+			}
 			ds := make([]*dialer.Dialer, len(members))
 			ans := make([]*dialer.Annotation, len(members))
 			var ms []string
@@ -234,71 +290,206 @@ func TestVerifC16Kernel(t *testing.T) {
 				ans[i] = &dialer.Annotation{}
 				ms = append(ms, fmt.Sprintf("%d:0", mm.id))
 			}
-			g.g = outbound.NewDialerGroup(opt, fmt.Sprintf("g%d", g.id), ds, ans,
+			g.g = outbound.NewDialerGroup(opt, g.name, ds, ans,
 				outbound.DialerSelectionPolicy{Policy: pols[g.pol]}, core.outboundAliveChangeCallback(uint8(g.ob), false))
 			groups = append(groups, g)
 			mstr := "-"
 			if len(ms) > 0 {
 				mstr = strings.Join(ms, ",")
 			}
-			st.Emit(fmt.Sprintf("group %d %d %s 0 %s |", g.id, g.ob, g.pol, mstr), kbits())
+			st.Emit(fmt.Sprintf("group %d %d %s 0 %s |", g.id, g.ob, g.pol, mstr), state())
 			stats.Inc("group." + g.pol)
 			return g
 		}
-		nn := 1 + r.Intn(3)
-		for i := 0; i < nn; i++ {
-			addNode([]int{0, 1, 1}[r.Intn(3)])
-		}
-		pick := func() []*c16kNode {
+		pick := func(pool []*c16kNode, pol string) []*c16kNode {
 			var ms []*c16kNode
-			for _, n := range nodes {
-				if r.Chance(0.8) {
+			for _, n := range pool {
+				if r.Chance(0.7) {
 					ms = append(ms, n)
 				}
 			}
+			// the fallback a random-policy group captures inside InheritDialerHealthFrom is not
+			// observable; with at most one member it is determined
+			if pol == "random" && len(ms) > 1 {
+				ms = ms[:1]
+			}
+			for i := len(ms) - 1; i > 0; i-- {
+				j := r.Intn(i + 1)
+				ms[i], ms[j] = ms[j], ms[i]
+			}
 			return ms
 		}
-		for i := 1 + r.Intn(2); i > 0; i-- {
-			addGroup(pick())
+		nn := 1 + r.Intn(4)
+		for i := 0; i < nn; i++ {
+			curNodes = append(curNodes, addNode([]int{0, 1, 1}[r.Intn(3)], ""))
 		}
-		for ev := 0; ev < 60; ev++ {
-			n := nodes[r.Intn(len(nodes))]
+		for i := 1 + r.Intn(3); i > 0; i-- {
+			pol := polNames[r.Intn(len(polNames))]
+			curGroups = append(curGroups, addGroup(pick(curNodes, pol), pol, ""))
+		}
+		// the reload: a new generation built from the current one, then the real method
+		reload := func() {
+			oldNodes, oldGroups := curNodes, curGroups
+			var newNodes []*c16kNode
+			newOf := map[*c16kNode]*c16kNode{}
+			for _, o := range oldNodes {
+				if r.Chance(0.9) {
+					nw := addNode(0, o.name) // same name: matched by the real method
+					newOf[o] = nw
+					newNodes = append(newNodes, nw)
+				}
+			}
+			if r.Chance(0.3) {
+				newNodes = append(newNodes, addNode(0, "")) // a node the old generation did not have
+			}
+			var newGroups []*c16kGroup
+			for _, og := range oldGroups {
+				if r.Chance(0.1) {
+					continue // group removed by the new config
+				}
+				var ms []*c16kNode
+				for _, mm := range og.members {
+					if nw := newOf[mm]; nw != nil && r.Chance(0.9) {
+						ms = append(ms, nw)
+					}
+				}
+				if r.Chance(0.3) { // membership edited: add other new nodes
+					for _, nw := range newNodes {
+						in := false
+						for _, x := range ms {
+							in = in || x == nw
+						}
+						if !in && r.Chance(0.4) {
+							ms = append(ms, nw)
+						}
+					}
+				}
+				if og.pol == "random" && len(ms) > 1 {
+					ms = ms[:1]
+				}
+				newGroups = append(newGroups, addGroup(ms, og.pol, og.name))
+			}
+			if r.Chance(0.4) { // a group without a namesake in the old generation
+				pol := polNames[r.Intn(len(polNames))]
+				newGroups = append(newGroups, addGroup(pick(newNodes, pol), pol, ""))
+			}
+			// what the real method will capture first (all nodes of the new generation are fresh; the
+			// call is deterministic for min policies / single-member random groups / fixed)
+			var toks []string
+			shared := map[*c16kNode]int{}
+			for _, ng := range newGroups {
+				fb := ng.g.CaptureReloadSelectionFallback()
+				var fbs, ps []string
+				for i := 0; i < 8; i++ {
+					if fb[i] != nil {
+						for _, n := range nodes {
+							if n.d == fb[i] {
+								fbs = append(fbs, fmt.Sprintf("%d:%d", i, n.id))
+							}
+						}
+					}
+				}
+				var og *c16kGroup
+				for _, x := range oldGroups {
+					if x.name == ng.name {
+						og = x
+					}
+				}
+				if og != nil {
+					for _, nw := range ng.members {
+						for _, om := range og.members {
+							if om.name == nw.name {
+								ps = append(ps, fmt.Sprintf("%d:%d", nw.id, om.id))
+								shared[nw]++
+							}
+						}
+					}
+				}
+				j := func(x []string) string {
+					if len(x) == 0 {
+						return "-"
+					}
+					return strings.Join(x, ",")
+				}
+				toks = append(toks, fmt.Sprintf("%d/%s/%s", ng.id, j(fbs), j(ps)))
+			}
+			for _, c := range shared {
+				if c > 1 {
+					stats.Inc("reload.shared_node")
+					break
+				}
+			}
+			og := make([]*outbound.DialerGroup, len(oldGroups))
+			for i, g := range oldGroups {
+				og[i] = g.g
+			}
+			ng := make([]*outbound.DialerGroup, len(newGroups))
+			for i, g := range newGroups {
+				ng[i] = g.g
+			}
+			oldCP := &ControlPlane{controlPlaneGenerationState: controlPlaneGenerationState{outbounds: og}}
+			newCP := &ControlPlane{controlPlaneGenerationState: controlPlaneGenerationState{outbounds: ng}}
+			overlap := newCP.InheritDialerHealthFrom(oldCP)
+			st.Emit("reload "+strings.Join(toks, " ")+" |", state())
+			stats.Inc("reload")
+			if overlap {
+				stats.Inc("reload.overlap")
+			}
+			curNodes, curGroups = newNodes, newGroups
+		}
+		for ev := 0; ev < 70; ev++ {
+			if len(curNodes) == 0 {
+				break
+			}
+			n := curNodes[r.Intn(len(curNodes))]
 			tok := c16kAll[r.Intn(len(c16kAll))]
-			switch r.Intn(10) {
+			switch r.Intn(12) {
 			case 0, 1, 2:
 				n.d.ReportUnavailableForced(c16kNT(tok), errors.New("x"))
-				st.Emit(fmt.Sprintf("forced %d %s |", n.id, tok), kbits())
+				st.Emit(fmt.Sprintf("forced %d %s |", n.id, tok), state())
+				stats.Inc("op.forced")
 			case 3, 4, 5:
 				n.d.ReportAvailableTraffic(c16kNT(tok))
-				st.Emit(fmt.Sprintf("tok %d %s |", n.id, tok), kbits())
+				st.Emit(fmt.Sprintf("tok %d %s |", n.id, tok), state())
+				stats.Inc("op.tok")
 			case 6:
 				n.d.ReportUnavailableTransactional(c16kNT(tok), errors.New("timeout"))
-				st.Emit(fmt.Sprintf("txn %d %s 0 |", n.id, tok), kbits())
-			case 7:
-				// kill every member of one group in one domain
-				if len(groups) > 0 {
-					g := groups[r.Intn(len(groups))]
+				st.Emit(fmt.Sprintf("txn %d %s 0 |", n.id, tok), state())
+				stats.Inc("op.txn")
+			case 7, 8:
+				// kill every member of one group in one domain (both families sometimes)
+				if len(curGroups) > 0 {
+					g := curGroups[r.Intn(len(curGroups))]
 					for _, mm := range g.members {
-						mm.d.ReportUnavailableForced(c16kNT(tok), nil)
-						st.Emit(fmt.Sprintf("forced %d %s |", mm.id, tok), kbits())
+						if r.Chance(0.9) {
+							mm.d.ReportUnavailableForced(c16kNT(tok), nil)
+							st.Emit(fmt.Sprintf("forced %d %s |", mm.id, tok), state())
+						}
 					}
 					stats.Inc("killall")
 				}
-			case 8:
-				o := nodes[r.Intn(len(nodes))]
-				n.d.RestoreHealthSnapshot(o.d.ReloadHealthSnapshot())
-				st.Emit(fmt.Sprintf("inherit %d %d |", n.id, o.id), kbits())
 			case 9:
-				if len(groups) > 0 {
-					g := groups[r.Intn(len(groups))]
+				o := curNodes[r.Intn(len(curNodes))]
+				n.d.RestoreHealthSnapshot(o.d.ReloadHealthSnapshot())
+				st.Emit(fmt.Sprintf("inherit %d %d |", n.id, o.id), state())
+				stats.Inc("op.inherit")
+			case 10:
+				if len(curGroups) > 0 {
+					g := curGroups[r.Intn(len(curGroups))]
 					var fb outbound.ReloadSelectionFallback
 					g.g.EnsureReloadSelectionFloor(fb)
-					st.Emit(fmt.Sprintf("floor %d - |", g.id), kbits())
+					st.Emit(fmt.Sprintf("floor %d - |", g.id), state())
+					stats.Inc("op.floor")
+				}
+			case 11:
+				if len(nodes) < 14 {
+					reload()
 				}
 			}
 			stats.Inc("event")
 		}
-		k := kbits()
+		k := state()
+		k = k[strings.Index(k, "K["):]
 		stats.Add("bits.zero", strings.Count(k, "0"))
 		stats.Add("bits.one", strings.Count(k, "1"))
 		for _, g := range groups {
